@@ -1,4 +1,4 @@
-from . import rules_rep, rules_hash, rules_c02, rules_list, inputs
+from . import rules_c03, rules_rep, rules_hash, rules_c02, rules_list, inputs
 from spec import geometry as G
 
 
@@ -14,6 +14,10 @@ def run(ctx, prog, facts, tier):
     I = inputs.make_interp(prog, fuel=40000000)
     rules_rep.check_c05(ctx, prog, I, tier == 'quick')
     rules_list.check_list(ctx, prog, I, 'C05')
+    # the captured-this-turn flag switches the repetition tests off: it must be set by a capture, stay set within the turn and be
+    # cleared when the turn ends (the C03 transition clauses on the per-turn record)
+    from .check_c03 import MOVES_Q, STATUS
+    rules_c03.check_transitions(ctx, prog, inputs.make_interp(prog, fuel=5000000), MOVES_Q[:2], STATUS[:1])
     # C05.5: captured pieces of both colours on all traps change the hash (C08 coverage clause)
     sqs = sorted(set(n for t in G.TRAPS for n in G.neighbours(t))) if tier == 'quick' else list(range(64))
     rules_hash.check_move_hash(ctx, prog, I, rules_c02.moves(True, sqs)[:: (3 if tier == 'quick' else 1)])
